@@ -2,8 +2,10 @@
 
    - [src_guards]: the guard record of extract_iter as regenerated from /repo's source on every
      run (gen/SrcFacts.v: is each hook call site inside a try/except Exception that appends to
-     save_errors?).  The C05 case files evaluate the model under these guards, and C05_total is
-     stated for them, so removing a `try` changes both the model's prediction and the proof.
+     save_errors?).  It enters ONLY through the proof obligation C05_guards_regenerated
+     (src_guards = all_guards) and the theorems stated for it; the C05 case files evaluate the
+     model at the proven values [all_guards], so a correspondence mismatch is always a genuine
+     disagreement between the implementation and the proven model.
    - observation helpers on result trees used by the C05/C16 theorems (fault ticks reported
      anywhere in a Stack tree, frames / errors of an outcome). *)
 Require Import Base M_Frames.
@@ -63,7 +65,7 @@ Definition with_faults (c : cfg) (fl : nat -> bool) : cfg :=
      fill := fill c; fault := fl; with_ctx := with_ctx c; grd := grd c; uguard := uguard c |}.
 Definition no_faults (c : cfg) : cfg := with_faults c (fun _ => false).
 
-(* C05 cases: the configuration is printed with [src_guards]; the direct oracle of the
+(* C05 cases: the configuration is printed with [all_guards]; the direct oracle of the
    driver reports any Raised observation, the comparison below ties the model under the
    regenerated guards to the implementation. *)
 Definition fcase := ecase.
